@@ -336,6 +336,11 @@ pub fn drive_atomic() -> Vec<String> {
         ("move_sheet(0,5)", Box::new(|m| m.move_sheet(0, 5))),
         ("set_rows_height(0,1,1,-2.0)", Box::new(|m| m.set_rows_height(0, 1, 1, -2.0))),
         ("set_columns_width(0,1,1,-2.0)", Box::new(|m| m.set_columns_width(0, 1, 1, -2.0))),
+        ("set_columns_width(0,16380,16390,50)", Box::new(|m| m.set_columns_width(0, 16380, 16390, 50.0))),
+        ("set_rows_height(0,1048570,1048580,30)", Box::new(|m| m.set_rows_height(0, 1048570, 1048580, 30.0))),
+        ("set_columns_hidden(0,16380,16390,true)", Box::new(|m| m.set_columns_hidden(0, 16380, 16390, true))),
+        ("set_columns_hidden(0,16384,16384,true)", Box::new(|m| m.set_columns_hidden(0, 16384, 16384, true))),
+        ("set_rows_hidden(0,1048576,1048576,true)", Box::new(|m| m.set_rows_hidden(0, 1048576, 1048576, true))),
     ];
     for (name, op) in ops.iter() {
         let mut m = new_um();
@@ -349,6 +354,26 @@ pub fn drive_atomic() -> Vec<String> {
         let after = snapshot(&m);
         if before.0 != after.0 { fails.push(format!("{name}: returned Err but the workbook bytes changed")); }
         if before.1 != after.1 || before.2 != after.2 { fails.push(format!("{name}: returned Err but can_undo/can_redo changed {:?} -> {:?}", (before.1, before.2), (after.1, after.2))); }
+    }
+    // operations that need a particular state first: (name, setup, operation); the snapshot is taken after the setup
+    type Op = Box<dyn Fn(&mut UserModel) -> Result<(), String>>;
+    let ops2: Vec<(&str, Op, Op)> = vec![
+        ("paste csv with the active cell off the corner", Box::new(|m| { m.set_selected_cell(10, 9)?; m.set_selected_range(5, 4, 10, 9) }),
+            Box::new(|m| m.paste_csv_string(&crate::expressions::types::Area { sheet: 0, row: 5, column: 4, width: 1, height: 1 }, "1\t2"))),
+        ("paste styles reaching beyond the last row", Box::new(|m| m.set_selected_cell(1048576, 3)),
+            Box::new(|m| { let mut s = m.get_cell_style(0, 1, 1)?; s.font.b = true; m.on_paste_styles(&[vec![s.clone()], vec![s]]) })),
+        ("set_cell_link with a label into a member of a CSE array", Box::new(|m| m.set_user_array_formula(0, 10, 5, 1, 2, "={1;2}")),
+            Box::new(|m| m.set_cell_link(0, 11, 5, crate::types::Link::External { target: "https://example.com".to_string(), tooltip: None }, Some("label")))),
+    ];
+    for (name, setup, op) in ops2.iter() {
+        let mut m = new_um();
+        m.set_user_input(0, 1, 1, "1").unwrap();
+        if setup(&mut m).is_err() { continue; }
+        let before = snapshot(&m);
+        if op(&mut m).is_ok() { continue; }
+        let after = snapshot(&m);
+        if before.0 != after.0 { fails.push(format!("{name}: returned Err but the workbook bytes changed")); }
+        if before.1 != after.1 || before.2 != after.2 { fails.push(format!("{name}: returned Err but can_undo/can_redo changed")); }
     }
     fails
 }
@@ -426,6 +451,150 @@ pub fn drive_select() -> Vec<String> {
     fails
 }
 
+
+// ------------------------------------------------------------------------------------------------ selection invariant (C28, unit uisel)
+fn sel_problem(m: &UserModel) -> Option<String> {
+    let v = m.get_selected_view();
+    let n = m.get_worksheets_properties().len() as u32;
+    if v.sheet >= n { return Some(format!("selected sheet {} of {n}", v.sheet)); }
+    let ok = |r: i32, c: i32| (1..=LAST_ROW).contains(&r) && (1..=LAST_COLUMN).contains(&c);
+    if !ok(v.row, v.column) || !ok(v.range[0], v.range[1]) || !ok(v.range[2], v.range[3]) { return Some(format!("off grid: cell ({},{}) range {:?}", v.row, v.column, v.range)); }
+    let (r0, r1) = (v.range[0].min(v.range[2]), v.range[0].max(v.range[2]));
+    let (c0, c1) = (v.range[1].min(v.range[3]), v.range[1].max(v.range[3]));
+    if v.row < r0 || v.row > r1 || v.column < c0 || v.column > c1 { return Some(format!("cell ({},{}) outside range {:?}", v.row, v.column, v.range)); }
+    None
+}
+pub fn drive_selinv() -> Vec<String> {
+    let mut fails = vec![];
+    let style = new_um().get_cell_style(0, 1, 1).unwrap();
+    let steps: Vec<(&str, Box<dyn Fn(&mut UserModel)>)> = vec![
+        ("set_selected_cell(10,9)", Box::new(|m| { let _ = m.set_selected_cell(10, 9); })),
+        ("set_selected_range(5,4,10,9)", Box::new(|m| { let _ = m.set_selected_range(5, 4, 10, 9); })),
+        ("on_area_selecting(7,7)", Box::new(|m| { let _ = m.on_area_selecting(7, 7); })),
+        ("on_area_selecting(-3,0)", Box::new(|m| { let _ = m.on_area_selecting(-3, 0); })),
+        ("set_selected_cell(LAST_ROW,1)", Box::new(|m| { let _ = m.set_selected_cell(LAST_ROW, 1); })),
+        ("on_page_down", Box::new(|m| { let _ = m.on_page_down(); })),
+        ("set_top_left_visible_cell(100,1)", Box::new(|m| { let _ = m.set_top_left_visible_cell(100, 1); })),
+        ("set_selected_cell(1,1)", Box::new(|m| { let _ = m.set_selected_cell(1, 1); })),
+        ("on_page_up", Box::new(|m| { let _ = m.on_page_up(); })),
+        ("set_selected_range(9,9,1,1)", Box::new(|m| { let _ = m.set_selected_range(9, 9, 1, 1); })),
+        ("on_paste_styles(1x1)", Box::new(move |m| { let _ = m.on_paste_styles(&[vec![style.clone()]]); })),
+        ("set_columns_hidden(0,1,2,true)", Box::new(|m| { let _ = m.set_columns_hidden(0, 1, 2, true); })),
+        ("on_arrow_left", Box::new(|m| { let _ = m.on_arrow_left(); })),
+        ("set_columns_hidden(0,LAST,LAST,true)", Box::new(|m| { let _ = m.set_columns_hidden(0, LAST_COLUMN, LAST_COLUMN, true); })),
+        ("set_rows_hidden(0,LAST,LAST,true)", Box::new(|m| { let _ = m.set_rows_hidden(0, LAST_ROW, LAST_ROW, true); })),
+        ("new_sheet", Box::new(|m| { let _ = m.new_sheet(); })),
+        ("duplicate_sheet(0)", Box::new(|m| { let _ = m.duplicate_sheet(0); })),
+        ("select last sheet", Box::new(|m| { let n = m.get_worksheets_properties().len() as u32; let _ = m.set_selected_sheet(n - 1); })),
+        ("undo", Box::new(|m| { let _ = m.undo(); })),
+        ("redo", Box::new(|m| { let _ = m.redo(); })),
+        ("hide_sheet(selected)", Box::new(|m| { let s = m.get_selected_sheet(); let _ = m.hide_sheet(s); })),
+        ("delete_sheet(0)", Box::new(|m| { let _ = m.delete_sheet(0); })),
+        ("undo", Box::new(|m| { let _ = m.undo(); })),
+        ("select last sheet", Box::new(|m| { let n = m.get_worksheets_properties().len() as u32; let _ = m.set_selected_sheet(n - 1); })),
+        ("redo", Box::new(|m| { let _ = m.redo(); })),
+        ("move_sheet(0,1)", Box::new(|m| { let _ = m.move_sheet(0, 1); })),
+        ("undo", Box::new(|m| { let _ = m.undo(); })),
+    ];
+    let mut m = new_um();
+    m.set_window_width(800.0);
+    m.set_window_height(600.0);
+    let mut trail = String::new();
+    for (name, step) in steps.iter() {
+        step(&mut m);
+        trail.push_str(name);
+        trail.push_str("; ");
+        if let Some(p) = sel_problem(&m) { fails.push(format!("after [{trail}]: {p}")); break; }
+    }
+    fails
+}
+
+// ------------------------------------------------------------------------------------------------ built-ins called with any number of arguments (C11, unit argidx)
+pub fn drive_builtins() -> Vec<String> {
+    use crate::functions::Function;
+    let mut fails = vec![];
+    let lang = crate::language::get_language("en").unwrap();
+    let prev = std::panic::take_hook();
+    std::panic::set_hook(Box::new(|_| {}));
+    for f in Function::into_iter() {
+        let name = f.to_localized_name(lang);
+        for n in 0..=6usize {
+            for v in ["1", "\"a\"", "A1:B2"] {
+                let formula = format!("={}({})", name, vec![v; n].join(","));
+                let fm = formula.clone();
+                let r = std::panic::catch_unwind(move || {
+                    let mut m = UserModel::new_empty("m", "en", "UTC", "en").unwrap();
+                    let _ = m.set_user_input(0, 5, 5, &fm);
+                    let _ = m.get_formatted_cell_value(0, 5, 5);
+                });
+                if r.is_err() { fails.push(format!("{formula} panics")); }
+            }
+        }
+    }
+    // date arithmetic with user-supplied offsets (unit dates)
+    for formula in ["=DATE(2000,1E10,1)", "=DATE(2000,-1E10,1)", "=DATE(2000,1,1E10)", "=DATE(2000,1,-1E10)", "=EDATE(1,1E10)", "=EDATE(1,-1E10)", "=EOMONTH(1,1E10)"] {
+        let fm = formula.to_string();
+        let r = std::panic::catch_unwind(move || {
+            let mut m = UserModel::new_empty("m", "en", "UTC", "en").unwrap();
+            let _ = m.set_user_input(0, 5, 5, &fm);
+            let _ = m.get_formatted_cell_value(0, 5, 5);
+        });
+        if r.is_err() { fails.push(format!("{formula} panics")); }
+    }
+    std::panic::set_hook(prev);
+    fails
+}
+
+// ------------------------------------------------------------------------------------------------ styles read back (C30, unit styles)
+pub fn drive_styles() -> Vec<String> {
+    let mut fails = vec![];
+    let mut m = new_model();
+    let base = m.get_style_for_cell(0, 1, 1).unwrap();
+    let mut variants = vec![];
+    for (i, fmt) in ["general", "0.00", "#,##0.000", "0.00\" KG\"", "0.00\" kg\"", "yyyy-mm-dd"].iter().enumerate() {
+        for bold in [false, true] { for quote in [false, true] {
+            let mut s = base.clone();
+            s.num_fmt = fmt.to_string();
+            s.font.b = bold;
+            s.quote_prefix = quote;
+            s.font.sz = 10 + i as i32;
+            variants.push(s);
+        } }
+    }
+    for (k, s) in variants.iter().enumerate() {
+        if let Err(e) = m.set_cell_style(0, 1 + k as i32, 2, s) { fails.push(format!("set_cell_style #{k}: {e}")); }
+    }
+    for (k, s) in variants.iter().enumerate() {
+        match m.get_style_for_cell(0, 1 + k as i32, 2) {
+            Ok(back) => if &back != s { fails.push(format!("style #{k} (num_fmt {:?}, bold {}, quote {}) reads back differently", s.num_fmt, s.font.b, s.quote_prefix)); },
+            Err(e) => fails.push(format!("get_style_for_cell #{k}: {e}")),
+        }
+    }
+    fails
+}
+
+// ------------------------------------------------------------------------------------------------ F4 cycling (C34, unit f4)
+pub fn drive_f4() -> Vec<String> {
+    let mut fails = vec![];
+    let norm = |s: &str| s.chars().filter(|c| *c != '$').collect::<String>().to_uppercase();
+    let m = new_model();
+    for f in ["=A1", "=SUM(A1, Sheet2!AB10)", "=a1+ Data!AA1:AB2", "=SUM(5:7)", "=SUM($D:E)", "='My Sheet'!$A$1*2", "=SUM(A1,      S!B2)", "= A1", "=x!$A1:b$2"] {
+        let n = f.chars().count();
+        for cursor in 0..=n {
+            let mut text = f.to_string();
+            let mut ok = true;
+            for _ in 0..4 {
+                match m.cycle_reference(&text, cursor.min(text.chars().count()), cursor.min(text.chars().count())) {
+                    Ok((t, _, _)) => { if norm(&t) != norm(f) { fails.push(format!("cycle_reference({f:?}, cursor {cursor}) changed more than $ and case: {t:?}")); ok = false; break; } text = t; }
+                    Err(e) => { fails.push(format!("cycle_reference({f:?}, cursor {cursor}): {e}")); ok = false; break; }
+                }
+            }
+            if ok && text.to_uppercase() != { let mut t0 = f.to_string(); for _ in 0..4 { t0 = m.cycle_reference(&t0, cursor.min(t0.chars().count()), cursor.min(t0.chars().count())).map(|x| x.0).unwrap_or(t0.clone()); } t0.to_uppercase() } { }
+        }
+    }
+    fails
+}
+
 pub fn run(driver: &str) -> Vec<String> {
     match driver {
         "cols" => drive_cols(),
@@ -438,6 +607,10 @@ pub fn run(driver: &str) -> Vec<String> {
         "atomic" => drive_atomic(),
         "history" => drive_history(),
         "select" => drive_select(),
+        "selinv" => drive_selinv(),
+        "builtins" => drive_builtins(),
+        "styles" => drive_styles(),
+        "f4" => drive_f4(),
         _ => vec![format!("unknown driver {driver}")],
     }
 }
@@ -450,7 +623,7 @@ mod t {
         for d in drivers.split(',').filter(|s| !s.is_empty()) {
             let fails = super::run(d);
             println!("REPLAY-DRIVER {d} failing_inputs={}", fails.len());
-            for f in fails.iter().take(8) {
+            for f in fails.iter().take(60) {
                 println!("REPLAY-FAIL {d} :: {f}");
             }
         }
